@@ -11,6 +11,7 @@ def mkLib (l : List (String × Val)) : Table :=
 
 def mathLibAddr : Nat := 2
 def tableLibAddr : Nat := 3
+def coLibAddr : Nat := 4
 
 def globalsTable : Table := mkLib [
   ("emit", .builtin .emit), ("args", .builtin .args),
@@ -20,7 +21,8 @@ def globalsTable : Table := mkLib [
   ("rawlen", .builtin .rawlen), ("setmetatable", .builtin .setmetatable),
   ("getmetatable", .builtin .getmetatable), ("next", .builtin .next), ("pairs", .builtin .pairs),
   ("ipairs", .builtin .ipairs), ("tostring", .builtin .tostring), ("tonumber", .builtin .tonumber),
-  ("string", .table stringLibAddr), ("math", .table mathLibAddr), ("table", .table tableLibAddr)]
+  ("string", .table stringLibAddr), ("math", .table mathLibAddr), ("table", .table tableLibAddr),
+  ("coroutine", .table coLibAddr)]
 
 def stringLib : Table := mkLib [
   ("len", .builtin .strLen), ("sub", .builtin .strSub), ("rep", .builtin .strRep),
@@ -36,9 +38,14 @@ def tableLib : Table := mkLib [
   ("unpack", .builtin .tblUnpack), ("pack", .builtin .tblPack), ("insert", .builtin .tblInsert),
   ("remove", .builtin .tblRemove), ("concat", .builtin .tblConcat)]
 
+def coLib : Table := mkLib [
+  ("create", .builtin .coCreate), ("resume", .builtin .coResume), ("yield", .builtin .coYield),
+  ("wrap", .builtin .coWrap), ("status", .builtin .coStatus), ("close", .builtin .coClose),
+  ("isyieldable", .builtin .coIsyieldable), ("running", .builtin .coRunning)]
+
 def initStore (input : List Val) : Store where
   cells := #[]
-  tables := #[globalsTable, stringLib, mathLib, tableLib]
+  tables := #[globalsTable, stringLib, mathLib, tableLib, coLib]
   closures := #[]
   trace := #[]
   input := input
@@ -62,5 +69,7 @@ def run (fo : FloatOps) (fuel : Nat) (prog : Block) (input : List Val) : Outcome
   | some (.ok _, s) => .done [] s
   | some (.error (.lua v _), s) => .error v s
   | some (.error (.unsupported w), _) => .unsupported w
+  | some (.error (.yield _), _) => .unsupported "yield reached the top level (internal)"
+  | some (.error .closing, _) => .unsupported "closing signal reached the top level (internal)"
 
 end GoluaVerif.Spec.Lua
